@@ -146,7 +146,7 @@ class Witness:
         return (self.root_fq, self.root_stmt, self.what, self.on, self.heads)
 
     def better_than(self, other: 'Witness') -> bool:
-        return (len(self.path), self.key()) < (len(other.path), other.key())
+        return (len(self.path), repr(self.key())) < (len(other.path), repr(other.key()))
 
     def to_json(self):
         return {'root_function': self.root_fq, 'root_statement': self.root_stmt, 'root_loc': self.root_loc,
@@ -190,10 +190,11 @@ class Summary:
         return len(self.unresolved_sites)
 
     def signature(self):
-        return (tuple(sorted((k, tuple(sorted(v))) for k, v in self.mutates.items())),
+        return (tuple(sorted((k, tuple(sorted(v, key=repr))) for k, v in self.mutates.items())),
                 tuple(sorted(self.ret)), tuple(sorted(self.ret_top_inner)), tuple(sorted(self.ret_nested_inner)),
                 tuple(sorted(self.ret_inner_known)), self.ret_types, tuple(sorted(self.ret_tags)),
-                tuple(sorted(self.captures)), tuple(sorted(self.globals)), tuple(sorted(self.rng)))
+                tuple(sorted(self.captures, key=repr)), tuple(sorted(self.globals, key=repr)),
+                tuple(sorted(self.rng, key=repr)))
 
 
 class CallRecord:
